@@ -17,6 +17,7 @@
 #   np.linalg.norm(m, ord=2, axis=1, keepdims=True)  (2-d)       Py.Nf.normRowsKeep norm m
 #   np.sum(a)  (1-d float array), sum(<generator of floats>)     Py.Nf.sumK a          (sequential from 0)
 #   x == c, x != c  (float scalar, literal 0 / 1 / -1)             !(x < c || c < x)     (K has a decidable ORDER only; equality on every total order)
+#   np.zeros_like(a, dtype=np.int32)  (1-d int array)              Py.fullLike a 0
 #   x.item()  (float scalar)                                     x
 #   np.array([i, …], dtype=np.float32)  (python ints)            [Py.Fld.ofInt i, …]
 #   np.array(<list of floats / float rows>, dtype=np.float32)    the list              (rounding between float widths is outside every theorem)
@@ -103,6 +104,11 @@ def _nf_expr(tr, e, want):
             fa = "".join(" " + b.split()[0].strip("(") for b in callee.fparams)
             n = tr.bindname()
             return steps + [f"Py.bind ({lean}{fa} {'fuel ' if callee.fuel else ''}{' '.join(codes)}) fun {n} =>"], n, parse_type(callee.ret)
+    # --- np.zeros_like(a, dtype=np.int32) of a 1-d integer array
+    if isinstance(e, ast.Call) and ast.unparse(e.func) == "np.zeros_like" and len(e.args) == 1 \
+            and {k.arg: ast.unparse(k.value) for k in e.keywords} == {"dtype": "np.int32"}:
+        s0, c, t = tr.tr(e.args[0])
+        return (s0, f"(Py.fullLike {c} (0 : Int))", ("List", "Int")) if t == ("List", "Int") else None
     if K is None:
         return None
     # --- x == c / x != c on a float scalar and a numeric literal (K has a decidable order, no decidable equality: neither x < c nor c < x)
@@ -259,6 +265,15 @@ spec(lean="nf_radial_distance", module="AlgoNodeFeat", file=_FEAT, cls="NodeFeat
      params=["ids", "pids", "types", "axyz"], num_tparams=["K"], fparams=_NORM,
      vars=dict(_TV4, xyz="List (List K)", radial_distance="List K"), ret="List K", tree_cols=_NT,
      doc="`swcgeom/analysis/features.py::NodeFeatures.get_radial_distance`")
+# the branch tree (`self._branch_tree`, a cached `BranchTree.from_tree(self.tree)`: translated in Gen/AlgoBranchTree.lean) is its two topology
+# columns `bt_ids`, `bt_pids`
+spec(lean="nf_assign_depth", module="AlgoNodeFeat", file=_FEAT, cls="NodeFeatures", func="get_branch_order", nested="assign_depth",
+     params=["n", "pre_depth"], vars={"n": "Int", "pre_depth": "Option Int", "cur_order": "Int", "order": "List Int"}, ret="Int",
+     captures=["order"], subst={"n.id": ("v.n", "Int")})
+spec(lean="nf_branch_order", module="AlgoNodeFeat", file=_FEAT, cls="NodeFeatures", func="get_branch_order",
+     params=["bt_ids", "bt_pids"], vars={"bt_ids": "List Int", "bt_pids": "List Int", "order": "List Int"}, ret="List Int", fuel=True,
+     closures={"assign_depth": "nf_assign_depth"}, tree_cols={"self._branch_tree": {"id": "bt_ids", "pid": "bt_pids"}},
+     doc="`swcgeom/analysis/features.py::NodeFeatures.get_branch_order` (the branch tree `self._branch_tree` is its columns `bt_ids`, `bt_pids`)")
 
 # ---- _SubsetNodesFeatures / FurcationFeatures / TipFeatures (the object is its `nodes` mask and the tree of its NodeFeatures)
 _FT = {"self._features.tree": _T4}
@@ -298,3 +313,20 @@ for _cls, _prop, _get, _el in (("PathFeatures", "_paths", "get_paths", "path"), 
          doc=f"`swcgeom/analysis/features.py::{_cls}.get_tortuosity`")
     NF_CALLS[f"nf_{_p}_tortuosity"] = {f"self.{_prop}": (f"nf_{_p}{_prop}", ["ids", "pids"]),
                                        f"{_el}.tortuosity()": ("nf_path_tortuosity", ["axyz", _el])}
+
+# ---- BranchFeatures.calc_angle / get_angle
+_ACOS = ["(acos : K → K)"]
+spec(lean="nf_calc_angle", module="AlgoNodeFeat", file=_FEAT, cls="BranchFeatures", func="calc_angle",
+     params=["axyz", "branches", "eps"], num_tparams=["K"], fparams=["(F : Py.Fld K)"] + _NORM + _ACOS,
+     vars={"axyz": "List (List K)", "branches": "List (List Int)", "eps": "K", "br": "List Int", "vector": "List (List K)",
+           "vector_dot": "List (List K)", "vector_norm": "List (List K)", "vector_norm_dot": "List (List K)", "arccos": "List (List K)",
+           "angle": "List (List K)"}, ret="List (List K)",
+     # GLUE: member k of a branch (`Path.__getitem__` -> `Path.node`) is row `br.idx[k]` of the attached table; `.xyz()` is its coordinate row
+     subst={"br[-1].xyz()": ("t_e", "List K", ["Py.bind (Py.idx v.br (-1)) fun t_ei =>", "Py.bind (Py.idx v.axyz t_ei) fun t_e =>"]),
+            "br[0].xyz()": ("t_s", "List K", ["Py.bind (Py.idx v.br (0)) fun t_si =>", "Py.bind (Py.idx v.axyz t_si) fun t_s =>"])},
+     doc="`swcgeom/analysis/features.py::BranchFeatures.calc_angle` (a branch is the list of its rows in the table whose coordinates are `axyz`)")
+spec(lean="nf_bf_angle", module="AlgoNodeFeat", file=_FEAT, cls="BranchFeatures", func="get_angle",
+     params=["ids", "pids", "axyz", "eps"], num_tparams=["K"], fparams=["(F : Py.Fld K)"] + _NORM + _ACOS, fuel=True,
+     vars=dict(_LV, eps="K"), ret="List (List K)", doc="`swcgeom/analysis/features.py::BranchFeatures.get_angle`")
+NF_CALLS["nf_bf_angle"] = {"self._branches": ("nf_bf_branches", ["ids", "pids"]),
+                           "self.calc_angle(self._branches, eps=eps)": ("nf_calc_angle", ["axyz", "self._branches", "eps"])}
